@@ -151,7 +151,31 @@ func checkC02(c *Ctx) {
 	if h := c.fn("C02.3", "cmd/application", "connManager", "handleNewConn"); h != nil {
 		for _, ci := range callsIn(h, shortIs("handleNewTCPConn")) {
 			a := argsOf(ci.Common())[2]
-			r.Check(strings.HasPrefix(pathOf(a), "main.getOriginalDst("), "C02.3", "handleNewConn: original destination from the socket (SO_ORIGINAL_DST)", ci.Pos(), fnName(h), pathOf(a), "the original destination is not taken from the redirected socket")
+			fromSocket := strings.HasPrefix(pathOf(a), "main.getOriginalDst(")
+			// ... or the result of a helper of the package whose every non-nil answer at that position is getOriginalDst's
+			if ex, ok := a.(*ssa.Extract); ok && !fromSocket {
+				if hc, ok := ex.Tuple.(*ssa.Call); ok {
+					if hf := helperCallee(h, &hc.Call); hf != nil {
+						nRet, okAll := 0, true
+						eachInstr(hf, func(in ssa.Instruction) {
+							ret, ok := in.(*ssa.Return)
+							if !ok || ex.Index >= len(ret.Results) || ret.Block().Comment == "recover" {
+								return
+							}
+							v := ret.Results[ex.Index]
+							if k, isC := v.(*ssa.Const); isC && k.Value == nil {
+								return
+							}
+							nRet++
+							if !strings.HasPrefix(pathOf(v), "main.getOriginalDst(") {
+								okAll = false
+							}
+						})
+						fromSocket = nRet > 0 && okAll
+					}
+				}
+			}
+			r.Check(fromSocket, "C02.3", "handleNewConn: original destination from the socket (SO_ORIGINAL_DST)", ci.Pos(), fnName(h), pathOf(a), "the original destination is not taken from the redirected socket")
 		}
 	}
 
